@@ -638,3 +638,63 @@ def r9(R):
     R.require(seen[0] or vs, 'the import no longer stores records')
     for v in vs:
         R.violation(v.node, v.message, g, v.path)
+
+
+# ----------------------------------------------------------------- C11.R10
+@rule('C11.R10', 'every way a transaction ends without commit forgets a '
+      'pending import: abort() and tpc_abort() both reset what importFile() '
+      'left for the commit (sibling agreement)', props=['C05'],
+      min_instances=2)
+def r10(R):
+    conn = R.prog.cls(CONN)
+    # the attributes importFile() leaves for the commit
+    ei = R.prog.cls('ZODB.ExportImport.ExportImport')
+    imp = R.method(ei, 'importFile')
+    pending = set()
+    for s in walk_local(imp.node):
+        if isinstance(s, ast.Assign):
+            for t in s.targets:
+                if isinstance(t, ast.Attribute) and isinstance(
+                        t.value, ast.Name) and t.value.id == 'self':
+                    pending.add(t.attr)
+    R.require(pending, 'importFile no longer leaves anything for the commit')
+    n = 0
+    for meth in ('abort', 'tpc_abort'):
+        f = R.method(conn, meth)
+        g, b, F = R.cfg(f, conn, max_depth=2)
+        n += 1
+        R.instance('Connection.%s' % meth, pending=sorted(pending))
+
+        def edge(node, st, lab, tgt, F=F):
+            if lab in ('e', 'eb'):
+                return st
+            if node.kind == 'test' and lab in ('T', 'F'):
+                for e, truth in implied_atoms(node.ast, lab):
+                    d_ = dotted(e)
+                    if d_ and len(d_) == 2 and d_[0] == 'self' and \
+                            d_[1] in pending and not truth:
+                        st = st | {d_[1]}          # nothing pending
+            for op in F.ops(node):
+                if op.kind == 'store' and op.path and len(op.path) == 2 and \
+                        op.path[0] == 'self' and op.path[1] in pending:
+                    st = st | {op.path[1]}
+            return st
+
+        def at(node, st, meth=meth):
+            if node.id == g.exit_return and pending - st:
+                return Violation(
+                    'Connection.%s can complete with a pending import '
+                    'still set (%s): an import whose savepoint failed (a '
+                    'truncated export file) is run again by the commit of '
+                    'the NEXT transaction, which fails with the import\'s '
+                    'error' % (meth, ', '.join('self.' + a for a in sorted(
+                        pending - st))))
+            return st
+
+        vs, stats = explore(g, frozenset(), at=at, edge=edge)
+        R.count(stats)
+        for v in vs[:1]:
+            R.violation((f.module.relpath, f.qualname,
+                         'pending import not forgotten'), v.message, g,
+                        v.path)
+    R.require(n >= 2, 'abort methods not found')
